@@ -566,8 +566,17 @@ func c15urls(c *h.Ctx) {
 		"/self.yaml": "import: [\"self.yaml\"]\ntasks: {s: {command: [\"true\"]}}\n", "/dir.yaml": "import: [\".\", \"..\", \"\"]\n",
 		"/badjson.json": "{\"import\": [\"x\", 1]", "/empty.yaml": "", "/notfound-import.yaml": "import: [\"nope/none.yaml\"]\n",
 	}
+	// the same small document under Content-Type headers of every shape a server may send
+	ctypes := []string{"yaml", "text", ";charset=utf-8", "text/ plain", "/", "application/", "/json", "a/b/c", "application/json;;", "text/plain; charset", "\x00", "application/x-yaml, text/plain", strings.Repeat("x", 5000) + "/y"}
+	for k := range ctypes {
+		bodies[fmt.Sprintf("/ctype%d.yaml", k)] = "tasks: {u: {command: [\"true\"]}}\n"
+	}
 	go http.Serve(ln, http.HandlerFunc(func(w http.ResponseWriter, r *http.Request) {
 		if b, ok := bodies[r.URL.Path]; ok {
+			var k int
+			if n, _ := fmt.Sscanf(r.URL.Path, "/ctype%d.yaml", &k); n == 1 && k < len(ctypes) {
+				w.Header()["Content-Type"] = []string{ctypes[k]}
+			}
 			w.Write([]byte(b))
 			return
 		}
